@@ -56,6 +56,9 @@ def main():
         lines = [l for l in r.stdout.splitlines() if l.startswith(("OK", "VIOLATION", "CHECK-BROKEN"))]
         print(f"{os.path.basename(seed.rstrip('/'))} {c} {tier}: exit={r.returncode} " + " | ".join(l[:220] for l in lines))
         rc |= r.returncode
+    # the checks regenerated coq/gen/Kernels.v from the seeded tree: restore it from /repo at once
+    sh([sys.executable, "-c", "import sys; sys.path.insert(0, %r); from vplib import common; common.run_translator()" % ROOT],
+       env=dict(os.environ, VERIF_REPO="/repo"))
     if not keep:
         sh(["git", "-C", "/repo", "worktree", "remove", "--force", ALT])
         shutil.rmtree(ALT, ignore_errors=True)
